@@ -21,7 +21,7 @@ theorem DWake.client_base : ∀ a ∈ clientBase, DWake.Kept a := by
   all_goals (try (simp at hg; done))
   all_goals (repeat' split)
   all_goals (intro he hm)
-  all_goals (first | (cases hm; done) | (obtain ⟨k1, k2, k3, k4, k5, k6, k7, k8, k9, k10, k11, k12, k13⟩ := hU _ he hm))
+  all_goals (first | (cases hm; done) | (obtain ⟨k1, k2, k3, k4, k5, k6, k7, k8, k9, k10, k11, k12, k13, k14⟩ := hU _ he hm))
   all_goals (first | (obtain ⟨w1, w2⟩ := h _ he hm))
   all_goals (
     have hn1 := nrd_pos k3
@@ -55,7 +55,7 @@ theorem DWake.client_cfg (s0 : Nat) : ∀ a ∈ clCfg s0, DWake.Kept a := by
   all_goals (try (simp at hg; done))
   all_goals (repeat' split)
   all_goals (intro he hm)
-  all_goals (first | (cases hm; done) | (obtain ⟨k1, k2, k3, k4, k5, k6, k7, k8, k9, k10, k11, k12, k13⟩ := hU _ he hm))
+  all_goals (first | (cases hm; done) | (obtain ⟨k1, k2, k3, k4, k5, k6, k7, k8, k9, k10, k11, k12, k13, k14⟩ := hU _ he hm))
   all_goals (first | (obtain ⟨w1, w2⟩ := h _ he hm))
   all_goals (
     have hn1 := nrd_pos k3
@@ -89,7 +89,7 @@ theorem DWake.client_err (s0 : Nat) : ∀ a ∈ clErr s0, DWake.Kept a := by
   all_goals (try (simp at hg; done))
   all_goals (repeat' split)
   all_goals (intro he hm)
-  all_goals (first | (cases hm; done) | (obtain ⟨k1, k2, k3, k4, k5, k6, k7, k8, k9, k10, k11, k12, k13⟩ := hU _ he hm))
+  all_goals (first | (cases hm; done) | (obtain ⟨k1, k2, k3, k4, k5, k6, k7, k8, k9, k10, k11, k12, k13, k14⟩ := hU _ he hm))
   all_goals (first | (obtain ⟨w1, w2⟩ := h _ he hm))
   all_goals (
     have hn1 := nrd_pos k3
